@@ -583,4 +583,336 @@ example :
       (fun dt t x => (rk4Iter scalarOps (fun s _ => 0 + 0 * s + 3 * s ^ 2 + 0 * s ^ 3) dt t x).xnew) 2 10).2 = 28 := by
   decide +kernel
 
+/-! ### histories of solve calls on one model object
+
+`solveCalls` (KawinV.Solver, Part 6) is a history of `GenericModel.solve` calls on ONE model object:
+every call names its scheme (`Scheme`: the two built-in iterators or a user-supplied one, as
+`DESolver.setIterator` dispatches), its step fractions and simulation time, may be preceded by a
+model-level reset, and the model gives its own answers (proposals, stop flags) during it. -/
+
+section calls
+variable {V W : Type}
+
+theorem solveCalls_length (step : Scheme α V → α → α → W → W) (init : α × W) (cs : List (Call α V)) (s : α × W) :
+    (solveCalls step init cs s).length = cs.length := by
+  induction cs generalizing s with
+  | nil => rfl
+  | cons c cs ih => simp [solveCalls, ih]
+
+/-- the model before call k+1 of `c :: cs` is the model before call k of `cs` started from what call `c` left -/
+theorem stateBefore_cons (step : Scheme α V → α → α → W → W) (init : α × W) (c : Call α V) (cs : List (Call α V))
+    (s : α × W) (k : Nat) (hk : k < cs.length + 1) :
+    stateBefore step init (c :: cs) s (k + 1) = stateBefore step init cs (solveCall step init c s) k := by
+  cases k with
+  | zero => simp [stateBefore, solveCalls]
+  | succ j =>
+    have hj : j < (solveCalls step init cs (solveCall step init c s)).length := by
+      rw [solveCalls_length]; omega
+    simp only [stateBefore, solveCalls, List.getElem?_cons_succ]
+    rw [List.getElem?_eq_getElem hj]; rfl
+
+/-- **every call is integrated with the scheme requested IN THAT CALL**: in any history of solve
+calls (any schemes, resets, step fractions, simulation times, answers of the model), the model
+after call k is the result of ONE run (`solveCall` = `solveX` with the iterator `step cs[k].scheme`)
+of the scheme requested in call k, started from what call k-1 left (or from the initial state
+after a reset) — nothing else of the earlier calls enters -/
+theorem each_call_uses_its_scheme (step : Scheme α V → α → α → W → W) (init : α × W) (cs : List (Call α V))
+    (s : α × W) (k : Nat) (hk : k < cs.length) :
+    (solveCalls step init cs s)[k]? = some (solveCall step init cs[k] (stateBefore step init cs s k)) := by
+  induction cs generalizing s k with
+  | nil => simp at hk
+  | cons c cs ih =>
+    cases k with
+    | zero => simp [solveCalls, stateBefore]
+    | succ k =>
+      have hk' : k < cs.length := by simpa using hk
+      simp only [solveCalls, List.getElem?_cons_succ, List.getElem_cons_succ]
+      rw [ih (solveCall step init c s) k hk', stateBefore_cons step init c cs s k (by omega)]
+
+/-- … and one call IS a single run of `DESolver.solve` with the iterator of the requested scheme,
+from the model's current time over the requested simulation time with the requested step fractions -/
+theorem call_is_single_run (step : Scheme α V → α → α → W → W) (init : α × W) (c : Call α V) (s : α × W) :
+    solveCall step init c s =
+      ((solveX (if c.reset then init else s).1 ((if c.reset then init else s).1 + c.simTime) c.minFrac c.maxFrac
+          c.propose c.stopAt (step c.scheme) (if c.reset then init else s).2 c.fuel).1.cur,
+       (solveX (if c.reset then init else s).1 ((if c.reset then init else s).1 + c.simTime) c.minFrac c.maxFrac
+          c.propose c.stopAt (step c.scheme) (if c.reset then init else s).2 c.fuel).2) := rfl
+
+/-- the iterator a scheme selects (`DESolver.setIterator`) -/
+theorem scheme_iter_builtin (o : VecOps α V) (f : α → V → V) :
+    (Scheme.euler : Scheme α V).iter o f = eulerIter o f ∧ (Scheme.rk4 : Scheme α V).iter o f = rk4Iter o f ∧
+    ∀ it, (Scheme.custom it : Scheme α V).iter o f = it o f := ⟨rfl, rfl, fun _ => rfl⟩
+
+/-- stage pattern of a call: 1 evaluation at t for Euler, 4 at t, t+dt/2, t+dt/2, t+dt for Runge-Kutta,
+2 at t, t+dt/2 for the user-supplied midpoint rule -/
+theorem scheme_call_times (o : VecOps α V) (f : α → V → V) (dt t : α) (x : V) :
+    (((Scheme.euler : Scheme α V).iter o f dt t x).calls.map Prod.fst = [t]) ∧
+    (((Scheme.rk4 : Scheme α V).iter o f dt t x).calls.map Prod.fst = [t, t + dt / 2, t + dt / 2, t + dt]) ∧
+    (((Scheme.custom midIter : Scheme α V).iter o f dt t x).calls.map Prod.fst = [t, t + dt / 2]) := ⟨rfl, rfl, rfl⟩
+
+/-- **a call that requests Runge-Kutta integrates cubics in t exactly over its own segment**, in any
+history, whatever was requested before and whether or not the model was reset -/
+theorem call_rk4_exact_cubic (init : α × α) (c : Call α α) (hc : c.scheme = .rk4) (s : α × α) (a0 a1 a2 a3 : α) :
+    let s0 := if c.reset then init else s
+    let r := solveCall (Scheme.step scalarOps (fun u _ => a0 + a1 * u + a2 * u ^ 2 + a3 * u ^ 3)) init c s
+    r.2 = s0.2 + (a0 * (r.1 - s0.1) + a1 * (r.1 ^ 2 - s0.1 ^ 2) / 2 + a2 * (r.1 ^ 3 - s0.1 ^ 3) / 3
+                  + a3 * (r.1 ^ 4 - s0.1 ^ 4) / 4) := by
+  intro s0 r
+  have := solve_rk4_exact_cubic (s0.1 + c.simTime) c.propose c.stopAt s0.1 c.minFrac c.maxFrac a0 a1 a2 a3 s0.2 c.fuel
+  simp only [r, solveCall, hc]
+  exact this
+
+/-- a call that requests Euler integrates constants exactly over its own segment -/
+theorem call_euler_exact_const (init : α × α) (c : Call α α) (hc : c.scheme = .euler) (s : α × α) (k : α) :
+    let s0 := if c.reset then init else s
+    let r := solveCall (Scheme.step scalarOps (fun _ _ => k)) init c s
+    r.2 = s0.2 + k * (r.1 - s0.1) := by
+  intro s0 r
+  have := solve_euler_exact_const (s0.1 + c.simTime) c.propose c.stopAt s0.1 c.minFrac c.maxFrac k s0.2 c.fuel
+  simp only [r, solveCall, hc]
+  exact this
+
+/-- the cached-solver variant is the code as long as every later call requests the scheme of the
+first (the excluding hypothesis) -/
+theorem solveCallsCached_eq_of_same_scheme (step : Scheme α V → α → α → W → W) (init : α × W) (c : Call α V)
+    (cs : List (Call α V)) (s : α × W) (h : ∀ d ∈ cs, d.scheme = c.scheme) :
+    solveCallsCached step init (c :: cs) s = solveCalls step init (c :: cs) s := by
+  have : cs.map (fun d => { d with scheme := c.scheme }) = cs := by
+    conv_rhs => rw [← List.map_id cs]
+    apply List.map_congr_left
+    intro d hd
+    have := h d hd
+    cases d
+    simp only [id] at this ⊢
+    simp_all
+  simp only [solveCallsCached, this]
+
+/-- counting the right-hand-side evaluations does not change what is integrated -/
+theorem runX_stepN_proj (o : VecOps α V) (f : α → V → V) (sc : Scheme α V) (tf dtmin : α) (propose : List α → Dt α)
+    (stopAt : List α → Bool) (n : Nat) (s : St α × (V × Nat)) :
+    (runX tf dtmin propose stopAt (Scheme.stepN o f sc) n s).1 = (runX tf dtmin propose stopAt (Scheme.step o f sc) n (s.1, s.2.1)).1 ∧
+    (runX tf dtmin propose stopAt (Scheme.stepN o f sc) n s).2.1 = (runX tf dtmin propose stopAt (Scheme.step o f sc) n (s.1, s.2.1)).2 := by
+  induction n generalizing s with
+  | zero => exact ⟨rfl, rfl⟩
+  | succ n ih =>
+    unfold runX
+    by_cases h : s.1.cur < tf ∧ s.1.stop = false
+    · rw [if_pos h, if_pos (by exact h)]
+      exact ih _
+    · rw [if_neg h, if_neg (by exact h)]
+      exact ⟨rfl, rfl⟩
+
+end calls
+
+/-- witness history over ℚ: y' = 2t, y(0) = 0; call 1: Euler over 1 with steps 1/2; call 2: after a
+reset, Runge-Kutta over 1 with steps 1/2 -/
+def histWitness (resetSecond : Bool) : List (Call ℚ ℚ) :=
+  [{ scheme := .euler, reset := false, simTime := 1, minFrac := 1/100, maxFrac := 1,
+     propose := fun _ => .fin (1/2), stopAt := fun _ => false, fuel := 10 },
+   { scheme := .rk4, reset := resetSecond, simTime := 1, minFrac := 1/100, maxFrac := 1,
+     propose := fun _ => .fin (1/2), stopAt := fun _ => false, fuel := 10 }]
+
+/-- **witness of the cached-solver variant**: the code integrates the second call with Runge-Kutta
+(exact: y(1) = 1), a solver object kept from the first call integrates it with Euler (1/2) -/
+theorem cached_solver_ignores_scheme :
+    solveCalls (Scheme.step scalarOps (fun u _ => 2 * u)) ((0 : ℚ), (0 : ℚ)) (histWitness true) (0, 0) = [(1, 1/2), (1, 1)] ∧
+    solveCallsCached (Scheme.step scalarOps (fun u _ => 2 * u)) ((0 : ℚ), (0 : ℚ)) (histWitness true) (0, 0) = [(1, 1/2), (1, 1/2)] := by
+  decide +kernel
+
+/-- the same as a continuation (no reset): from (1, 1/2) Runge-Kutta arrives at 1/2 + 2² − 1² = 7/2, the cached Euler at 3 -/
+theorem cached_solver_ignores_scheme_continuation :
+    solveCalls (Scheme.step scalarOps (fun u _ => 2 * u)) ((0 : ℚ), (0 : ℚ)) (histWitness false) (0, 0) = [(1, 1/2), (2, 7/2)] ∧
+    solveCallsCached (Scheme.step scalarOps (fun u _ => 2 * u)) ((0 : ℚ), (0 : ℚ)) (histWitness false) (0, 0) = [(1, 1/2), (2, 3)] := by
+  decide +kernel
+
+/-- non-vacuity of `each_call_uses_its_scheme` (k = 1 < 2) and of the hypothesis of `solveCallsCached_eq_of_same_scheme` -/
+example : (1 : Nat) < (histWitness true).length := by decide
+example : ∀ d ∈ ([] : List (Call ℚ ℚ)), d.scheme = Scheme.euler := by simp
+
+/-! ### storage type of the model's state arrays
+
+`Flatten.unflattenTyped` is `GenericModel.unflattenX` for a reference state whose items carry the
+NumPy type the model chose (int64, int32, float32, float16, float64): the type is not read, the
+callbacks receive the VALUES of the flat vector.  `Flatten.deliver X` is one trip through the
+nested form (flattenX ∘ unflattenX(·, X)); `rk4IterVia g` / `eulerIterVia g` (KawinV.Solver,
+Part 7) are the iterators as the model's callbacks see them through such a trip. -/
+
+section dtype
+open KawinV.Flatten
+variable {β : Type}
+
+theorem flatten_cons' (it : Item β) (X : List (Item β)) : flatten (it :: X) = it.data ++ flatten X := by
+  simp [flatten]
+
+/-- the values handed to the callbacks are the first totalSize entries of the flat vector — for
+every reference state, whatever it holds -/
+theorem flatten_unflatten_take (ref : List (Item β)) (flat : List β) (Y : List (Item β))
+    (h : unflatten flat ref = some Y) : flatten Y = flat.take (totalSize ref) := by
+  induction ref generalizing flat Y with
+  | nil => simp [unflatten] at h; subst h; simp [flatten, totalSize]
+  | cons it ref ih =>
+    cases it with
+    | scalar x =>
+      cases flat with
+      | nil => simp [unflatten] at h
+      | cons a fs =>
+        simp only [unflatten, Option.map_eq_some_iff] at h
+        obtain ⟨t, ht, rfl⟩ := h
+        rw [flatten_cons', ih fs t ht]
+        simp only [Item.data, totalSize, List.map_cons, List.sum_cons, Item.size]
+        rw [show 1 + (List.map Item.size ref).sum = (List.map Item.size ref).sum + 1 by omega,
+          List.take_succ_cons]
+        rfl
+    | arr sh d =>
+      simp only [unflatten] at h
+      split_ifs at h with hlen
+      simp only [Option.map_eq_some_iff] at h
+      obtain ⟨t, ht, rfl⟩ := h
+      rw [flatten_cons', ih _ t ht]
+      simp only [Item.data, totalSize, List.map_cons, List.sum_cons, Item.size]
+      rw [List.take_add]
+
+/-- **the storage type of the model's arrays does not enter**: one trip through the nested form
+returns a flat vector of the state's length unchanged, for every typed reference state -/
+theorem deliver_eq (X : TState β) (v : List β) (hv : v.length = totalSize X.items) : deliver X v = v := by
+  unfold deliver unflattenTyped
+  cases h : unflatten v X.items with
+  | none => rfl
+  | some Y =>
+    simp only
+    rw [flatten_unflatten_take _ _ _ h, ← hv, List.take_length]
+
+/-- the casting variant is the code when every array of the state is float64 (the excluding hypothesis) -/
+theorem unflattenCast_f64 (cs : Casts β) (X : TState β) (h : ∀ p ∈ X, p.1 = DType.f64) (flat : List β) :
+    unflattenCast cs flat X = unflattenTyped flat X := by
+  unfold unflattenTyped TState.items
+  induction X generalizing flat with
+  | nil => rfl
+  | cons p X ih =>
+    have ih' := fun fl => ih (fun q hq => h q (List.mem_cons_of_mem _ hq)) fl
+    obtain ⟨ty, it⟩ := p
+    have hty : ty = DType.f64 := h (ty, it) List.mem_cons_self
+    subst hty
+    cases it with
+    | scalar x =>
+      cases flat with
+      | nil => rfl
+      | cons a fs => simp only [unflattenCast, List.map_cons, unflatten, ih']
+    | arr sh d =>
+      simp only [unflattenCast, List.map_cons, unflatten, ih', DType.cast, List.map_id_fun, id_eq]
+
+theorem deliverCast_f64 (cs : Casts β) (X : TState β) (h : ∀ p ∈ X, p.1 = DType.f64) (v : List β) :
+    deliverCast cs X v = deliver X v := by
+  unfold deliverCast deliver
+  rw [unflattenCast_f64 cs X h]
+
+/-- with the identity trip the iterators seen by the model are the iterators -/
+theorem rk4IterVia_id {V : Type} (o : VecOps α V) (f : α → V → V) (dt t : α) (x : V) :
+    rk4IterVia id o f dt t x = rk4Iter o f dt t x := rfl
+
+theorem eulerIterVia_id {V : Type} (o : VecOps α V) (f : α → V → V) (dt t : α) (x : V) :
+    eulerIterVia id o f dt t x = eulerIter o f dt t x := rfl
+
+theorem listOps_add_length (a b : List α) : (listOps.add a b).length = min a.length b.length := by simp [listOps]
+theorem listOps_smul_length (c : α) (a : List α) : (listOps.smul c a).length = a.length := by simp [listOps]
+theorem listOps_sdiv_length (a : List α) (c : α) : (listOps.sdiv a c).length = a.length := by simp [listOps]
+
+theorem updateX_length (x k : List α) (dt : α) (hk : k.length = x.length) :
+    (updateX listOps x k dt).length = x.length := by
+  simp [updateX, listOps, hk]
+
+/-- a trip that fixes the vectors of the state's length is invisible to the Runge-Kutta iterator
+(right-hand side that returns as many derivatives as it got state components) -/
+theorem rk4IterVia_fixed (g : List α → List α) (f : α → List α → List α) (n : Nat)
+    (hg : ∀ v, v.length = n → g v = v) (hf : ∀ t v, v.length = n → (f t v).length = n)
+    (dt t : α) (x : List α) (hx : x.length = n) :
+    rk4IterVia g listOps f dt t x = rk4Iter listOps f dt t x ∧ (rk4Iter listOps f dt t x).xnew.length = n := by
+  have ux : ∀ (k : List α) (d : α), k.length = n → updateXVia g listOps x k d = updateX listOps x k d := by
+    intro k d hk; unfold updateXVia updateX; rw [hg k hk]
+  have ul : ∀ (k : List α) (d : α), k.length = n → (updateX listOps x k d).length = n := by
+    intro k d hk; rw [updateX_length _ _ _ (by rw [hk, hx]), hx]
+  have h1 := hf t x hx
+  have l1 := ul _ (dt / 2) h1
+  have h2 := hf (t + dt / 2) _ l1
+  have l2 := ul _ (dt / 2) h2
+  have h3 := hf (t + dt / 2) _ l2
+  have l3 := ul _ dt h3
+  have h4 := hf (t + dt) _ l3
+  have hs : (listOps.sdiv (listOps.add (listOps.add (listOps.add (f t x) (listOps.smul 2 (f (t + dt / 2) (updateX listOps x (f t x) (dt / 2)))))
+      (listOps.smul 2 (f (t + dt / 2) (updateX listOps x (f (t + dt / 2) (updateX listOps x (f t x) (dt / 2))) (dt / 2)))))
+      (f (t + dt) (updateX listOps x (f (t + dt / 2) (updateX listOps x (f (t + dt / 2) (updateX listOps x (f t x) (dt / 2))) (dt / 2))) dt))) (6 : α)).length = n := by
+    rw [listOps_sdiv_length, listOps_add_length, listOps_add_length, listOps_add_length, listOps_smul_length, listOps_smul_length,
+      h1, h2, h3, h4]
+    simp
+  constructor
+  · simp only [rk4IterVia, rk4Iter]
+    rw [hg x hx, ux _ _ h1, hg _ l1, ux _ _ h2, hg _ l2, ux _ _ h3, hg _ l3, ux _ _ hs]
+  · simp only [rk4Iter]
+    exact ul _ dt hs
+
+theorem eulerIterVia_fixed (g : List α → List α) (f : α → List α → List α) (n : Nat)
+    (hg : ∀ v, v.length = n → g v = v) (hf : ∀ t v, v.length = n → (f t v).length = n)
+    (dt t : α) (x : List α) (hx : x.length = n) :
+    eulerIterVia g listOps f dt t x = eulerIter listOps f dt t x ∧ (eulerIter listOps f dt t x).xnew.length = n := by
+  have h1 := hf t x hx
+  constructor
+  · simp only [eulerIterVia, eulerIter, updateXVia, updateX]
+    rw [hg x hx, hg _ h1]
+  · simp only [eulerIter]
+    rw [updateX_length _ _ _ (by rw [h1, hx]), hx]
+
+/-- **state dtypes**: for EVERY typed reference state X (int64, int32, float32, float16, float64
+arrays and scalars in any order), every right-hand side that returns one derivative per state
+component, every t, dt and flat state of the state's length: the stage arguments the model's
+`getdXdt` receives, the times, and the state handed to `postProcess` are those of the iterator on
+the plain values — the trajectory is the float64 trajectory of float(values) -/
+theorem iterators_through_typed_state (X : TState α) (f : α → List α → List α)
+    (hf : ∀ t v, v.length = totalSize X.items → (f t v).length = totalSize X.items)
+    (dt t : α) (x : List α) (hx : x.length = totalSize X.items) :
+    rk4IterVia (deliver X) listOps f dt t x = rk4Iter listOps f dt t x ∧
+    passVia (deliver X) (rk4IterVia (deliver X) listOps f) dt t x = (rk4Iter listOps f dt t x).xnew ∧
+    eulerIterVia (deliver X) listOps f dt t x = eulerIter listOps f dt t x ∧
+    passVia (deliver X) (eulerIterVia (deliver X) listOps f) dt t x = (eulerIter listOps f dt t x).xnew := by
+  have hg : ∀ v : List α, v.length = totalSize X.items → deliver X v = v := fun v hv => deliver_eq X v hv
+  obtain ⟨r1, r2⟩ := rk4IterVia_fixed (deliver X) f _ hg hf dt t x hx
+  obtain ⟨e1, e2⟩ := eulerIterVia_fixed (deliver X) f _ hg hf dt t x hx
+  refine ⟨r1, ?_, e1, ?_⟩
+  · unfold passVia; rw [r1, hg _ r2]
+  · unfold passVia; rw [e1, hg _ e2]
+
+end dtype
+
+/-- the conversions of `astype` over ℚ: integer types truncate toward zero (the float formats are not needed for the witness) -/
+def truncQ (q : ℚ) : ℚ := ((Int.tdiv q.num q.den : ℤ) : ℚ)
+def castsQ : KawinV.Flatten.Casts ℚ := { toF32 := id, toF16 := id, trunc := truncQ }
+
+/-- the oscillator y1' = -y2, y2' = y1 with its state kept as ONE int64 array [1, 0] -/
+def oscX : KawinV.Flatten.TState ℚ := [(.i64, .arr [2] [1, 0])]
+def oscF : ℚ → List ℚ → List ℚ := fun _ y => match y with | [a, b] => [-b, a] | _ => y
+
+/-- **witness of the casting variant**: with arrays cast back to the storage type of the model's
+array every stage state and every accepted state is truncated: from [1, 0] with dt = 1/4 the
+Euler pass returns [1, 0] again (the state never moves: order 0) and Runge-Kutta likewise, while
+the code moves to [1, 1/4] and [5953/6144, 95/384] -/
+theorem casting_unflatten_freezes :
+    passVia (KawinV.Flatten.deliverCast castsQ oscX) (eulerIterVia (KawinV.Flatten.deliverCast castsQ oscX) listOps oscF) (1/4) 0 [1, 0] = [1, 0] ∧
+    passVia (KawinV.Flatten.deliverCast castsQ oscX) (rk4IterVia (KawinV.Flatten.deliverCast castsQ oscX) listOps oscF) (1/4) 0 [1, 0] = [1, 0] ∧
+    passVia (KawinV.Flatten.deliver oscX) (eulerIterVia (KawinV.Flatten.deliver oscX) listOps oscF) (1/4) 0 [1, 0] = [1, 1/4] ∧
+    passVia (KawinV.Flatten.deliver oscX) (rk4IterVia (KawinV.Flatten.deliver oscX) listOps oscF) (1/4) 0 [1, 0] = [5953/6144, 95/384] := by
+  decide +kernel
+
+/-- the trip itself on concrete numbers -/
+example : KawinV.Flatten.deliverCast castsQ oscX [9/10, -7/4] = [0, -1] ∧ KawinV.Flatten.deliver oscX [9/10, -7/4] = [9/10, -7/4] := by
+  decide +kernel
+
+/-- non-vacuity of the hypotheses of `iterators_through_typed_state` / `deliverCast_f64` -/
+example : ([1, 0] : List ℚ).length = KawinV.Flatten.totalSize oscX.items ∧
+    (∀ t v, v.length = KawinV.Flatten.totalSize oscX.items → (oscF t v).length = KawinV.Flatten.totalSize oscX.items) := by
+  refine ⟨by decide, ?_⟩
+  intro t v hv
+  match v, hv with
+  | [a, b], _ => rfl
+example : ∀ p ∈ ([(.f64, .arr [2] [1, 0])] : KawinV.Flatten.TState ℚ), p.1 = KawinV.Flatten.DType.f64 := by
+  intro p hp; simp at hp; subst hp; rfl
+
 end KawinV.Props.C06
